@@ -8,7 +8,7 @@ an object type whose declared properties are inhabited scalar types (no index si
 against an object type on the right, with or without a (string) index signature. For every context in which the two atoms are defined and the
 memo holds no answer for this very question yet, and every fuel ≥ 5, `is_subtype` answers, and says *yes* exactly when every exact value of the left type —
 a value for every declared key within its type, nothing else — is a value of the right type under the structural reading
-(undeclared keys are free). That is reading S8 of the reference, now a theorem on this fragment instead of a sampled
+(undeclared keys are free, or within the index signature when there is one). That is reading S8 of the reference, now a theorem on this fragment instead of a sampled
 agreement.
 
 The proof follows the engine step by step: the difference of two atoms is one diagram with one clause `A ∧ ¬B`
